@@ -5,12 +5,11 @@ import PpciVerif.Model.RA
 
 Requests (one line, blank-separated words; lists are comma-separated naturals, possibly empty):
 
-  check A=<p:q,p:q,...> C=<colour of vreg 0,1,2,...> R=<indices of removed instructions> <instr> <instr> ...
-  spill T=<temps> F=<fresh> N=<number of pre instructions> <instr>*N <sinstr>*
-  expand T=.. F=.. N=.. <instr>*N          -- prints the number of instructions of the recomputed rewrite
+  check A=<p:q,p:q,...> C=<colour of vreg 0,1,2,...> X=<fixed (precoloured) vregs> R=<indices of removed instructions> <instr> <instr> ...
+  spill A=<alias> C=<colours (meaningful for fixed names)> X=<fixed> T=<temps> F=<fresh> N=<number of pre instructions> <instr>*N <sinstr>*
 
-  <instr>  = uses;defs;clobbers;jumps;isMove(0|1);label(- or n);sem;livein[;plan]      plan = t:f,t:f,...
-  <sinstr> = L<f> | S<f> | I<instr>
+  <instr>  = uses;defs;clobbers;jumps;isMove(0|1);label(- or n);sem;livein[;plan;loadscratch;storescratch]   plan = t:f,t:f,...
+  <sinstr> = L<f>/<scratch csv> | S<f>/<scratch csv> | I<instr>
 
 Replies: `ok accept` | `ok reject <first failing instruction index | entry | shape>` | `bad-op`.
 -/
@@ -32,7 +31,7 @@ def pairCsv? (s : String) : Option (List (Nat × Nat)) :=
 structure PInstr where
   ins : Instr
   live : List Nat
-  plan : List (Nat × Nat)
+  plan : Plan
 
 def parseInstr (w : String) : Option PInstr :=
   match w.splitOn ";" with
@@ -46,8 +45,12 @@ def parseInstr (w : String) : Option PInstr :=
     let sem ← s.toNat?
     let live ← natCsv? lv
     let plan ← (match rest with
-      | [] => some []
-      | [pl] => pairCsv? pl
+      | [] => some { ren := [], lclob := [], sclob := [] }
+      | [pl, lc, sc] => do
+        let r ← pairCsv? pl
+        let l ← natCsv? lc
+        let s ← natCsv? sc
+        pure ({ ren := r, lclob := l, sclob := s } : Plan)
       | _ => none)
     pure { ins := { uses := uses, defs := defs, clobbers := clob, isMove := mv, jumps := jumps, label := label, sem := sem },
            live := live, plan := plan }
@@ -62,17 +65,17 @@ def firstBad (p : Program) (A : Alloc) : Nat → List Instr → Option Nat
   | _, [] => none
   | i, ins :: rest => if instrOkB p A i ins then firstBad p A (i + 1) rest else some i
 
-def doCheck (aw cw rw : String) (iws : List String) : String :=
-  match kv? "A=" aw, kv? "C=" cw, kv? "R=" rw with
-  | some a, some c, some r =>
-    match pairCsv? a, natCsv? c, natCsv? r, iws.mapM parseInstr with
-    | some pairs, some cols, some rms, some pis =>
+def doCheck (aw cw xw rw : String) (iws : List String) : String :=
+  match kv? "A=" aw, kv? "C=" cw, kv? "X=" xw, kv? "R=" rw with
+  | some a, some c, some x, some r =>
+    match pairCsv? a, natCsv? c, natCsv? x, natCsv? r, iws.mapM parseInstr with
+    | some pairs, some cols, some fixed, some rms, some pis =>
       let colArr := cols.toArray
       let prog : Program := pis.map (·.ins)
       let n := prog.length
       -- every register id mentioned must have a colour; every index must be in range
       let regsOk := pis.all (fun pi => (pi.ins.uses ++ pi.ins.defs ++ pi.live).all (fun v => v < colArr.size))
-      let rmOk := rms.all (fun i => i < n)
+      let rmOk := rms.all (fun i => i < n) && fixed.all (fun v => v < colArr.size)
       if !(regsOk && rmOk) then "bad-op" else
       let np := (maxList (cols ++ pairs.map (·.1) ++ pairs.map (·.2) ++ prog.flatMap (·.clobbers))) + 1
       let adj : Array (List Nat) := pairs.foldl (fun acc pq => acc.modify pq.1 (fun l => pq.2 :: l)) (Array.replicate np [])
@@ -81,64 +84,79 @@ def doCheck (aw cw rw : String) (iws : List String) : String :=
       let A : Alloc := {
         colour := fun v => colArr.getD v 0
         alias := fun p q => (adj.getD p []).contains q
+        fixed := fixed
         removed := fun i => rmArr.getD i false
         live := fun i => liveArr.getD i [] }
       if check prog A then "ok accept"
+      else if !fixedOkB A then "ok reject fixed"
       else if !entryOkB A then "ok reject entry"
       else match firstBad prog A 0 prog with
         | some i => s!"ok reject {i}"
         | none => "ok reject ?"
-    | _, _, _, _ => "bad-op"
-  | _, _, _ => "bad-op"
+    | _, _, _, _, _ => "bad-op"
+  | _, _, _, _ => "bad-op"
+
+def parseLS (w : String) : Option (Nat × List Nat) :=
+  match w.splitOn "/" with
+  | [f, c] => do
+    let x ← f.toNat?
+    let l ← natCsv? c
+    pure (x, l)
+  | _ => none
 
 def parseSInstr (w : String) : Option SInstr :=
-  if w.startsWith "L" then (w.drop 1).toString.toNat?.map SInstr.load
-  else if w.startsWith "S" then (w.drop 1).toString.toNat?.map SInstr.store
+  if w.startsWith "L" then (parseLS (w.drop 1).toString).map (fun fc => SInstr.load fc.1 fc.2)
+  else if w.startsWith "S" then (parseLS (w.drop 1).toString).map (fun fc => SInstr.store fc.1 fc.2)
   else if w.startsWith "I" then (parseInstr (w.drop 1).toString).map (fun pi => SInstr.ins pi.ins)
   else none
 
-def firstBadSpill (p : Program) (temps fresh : List Nat) (live : Nat → List Nat) (plan : Nat → Ren) :
+def firstBadSpill (p : Program) (C : SpillCtx) (live : Nat → List Nat) (plan : Nat → Plan) :
     Nat → List Instr → Option Nat
   | _, [] => none
   | i, ins :: rest =>
-    if spillInstrOkB p temps fresh live (plan i) i ins then firstBadSpill p temps fresh live plan (i + 1) rest else some i
+    if spillInstrOkB p C live (plan i) i ins then firstBadSpill p C live plan (i + 1) rest else some i
 
 def firstDiff : Nat → List SInstr → List SInstr → Option Nat
   | _, [], [] => none
   | i, a :: as, b :: bs => if a = b then firstDiff (i + 1) as bs else some i
   | i, _, _ => some i
 
-def doSpill (expandOnly : Bool) (tw fw nw : String) (rest : List String) : String :=
-  match kv? "T=" tw, kv? "F=" fw, kv? "N=" nw with
-  | some t, some f, some ns =>
-    match natCsv? t, natCsv? f, ns.toNat? with
-    | some temps, some fresh, some n =>
+def doSpill (aw cw xw tw fw nw : String) (rest : List String) : String :=
+  match kv? "A=" aw, kv? "C=" cw, kv? "X=" xw, kv? "T=" tw, kv? "F=" fw, kv? "N=" nw with
+  | some a, some c, some x, some t, some f, some ns =>
+    match pairCsv? a, natCsv? c, natCsv? x, natCsv? t, natCsv? f, ns.toNat? with
+    | some pairs, some cols, some fixed, some temps, some fresh, some n =>
       if rest.length < n then "bad-op" else
       match (rest.take n).mapM parseInstr, (rest.drop n).mapM parseSInstr with
       | some pis, some post =>
         let pre : Program := pis.map (·.ins)
+        let colArr := cols.toArray
+        let np := (maxList (cols ++ pairs.map (·.1) ++ pairs.map (·.2))) + 1
+        let adj : Array (List Nat) := pairs.foldl (fun acc pq => acc.modify pq.1 (fun l => pq.2 :: l)) (Array.replicate np [])
         let liveArr : Array (List Nat) := (pis.map (·.live)).toArray
-        let planArr : Array Ren := (pis.map (·.plan)).toArray
+        let planArr : Array Plan := (pis.map (·.plan)).toArray
         let live := fun i => liveArr.getD i []
-        let plan := fun i => planArr.getD i []
-        if expandOnly then s!"ok {(expandAll plan 0 pre).length}" else
-        if checkSpillStep pre post temps fresh live plan then "ok accept"
+        let plan := fun i => planArr.getD i { ren := [], lclob := [], sclob := [] }
+        if !(fixed.all (fun v => v < colArr.size)) then "bad-op" else
+        let C : SpillCtx := { temps := temps, fresh := fresh,
+          model := { alias := (fun p q => (adj.getD p []).contains q), colour := (fun v => colArr.getD v 0),
+                     fixed := (fun v => fixed.contains v) } }
+        if checkSpillStep pre post C live plan then "ok accept"
         else match firstDiff 0 post (expandAll plan 0 pre) with
           | some i => s!"ok reject shape {i}"
           | none =>
-            if !(fresh.all (fun x => !temps.contains x)) then "ok reject fresh"
-            else match firstBadSpill pre temps fresh live plan 0 pre with
+            if !(fresh.all (fun f => !temps.contains f && !C.model.fixed f) && temps.all (fun t => !C.model.fixed t)) then "ok reject fresh"
+            else match firstBadSpill pre C live plan 0 pre with
               | some i => s!"ok reject {i}"
               | none => "ok reject ?"
       | _, _ => "bad-op"
-    | _, _, _ => "bad-op"
-  | _, _, _ => "bad-op"
+    | _, _, _, _, _, _ => "bad-op"
+  | _, _, _, _, _, _ => "bad-op"
 
 def step (line : String) : String :=
   match words line with
-  | "check" :: aw :: cw :: rw :: iws => doCheck aw cw rw iws
-  | "spill" :: tw :: fw :: nw :: rest => doSpill false tw fw nw rest
-  | "expand" :: tw :: fw :: nw :: rest => doSpill true tw fw nw rest
+  | "check" :: aw :: cw :: xw :: rw :: iws => doCheck aw cw xw rw iws
+  | "spill" :: aw :: cw :: xw :: tw :: fw :: nw :: rest => doSpill aw cw xw tw fw nw rest
   | _ => "bad-op"
 
 def main : IO Unit := mainLoop step
